@@ -440,3 +440,90 @@ def final_state_permutations(topology):
     fs = sorted(topology.outgoing_edge_ids)
     for p in itertools.permutations(fs):
         yield dict(zip(fs, p))
+
+
+# --------------------------------------------------------------------------- fresh-process worker (HARDENING rules 3 and 6)
+
+
+def worker_main() -> None:
+    """`python -m tools.corr.C07` with a JSON request on stdin: evaluates, in THIS fresh process,
+    for every requested number of final states
+
+    * ONE HelicityAdapter with all permuted topologies: its set iteration order, the parsed
+      `create_expressions()` (cold caches: nothing else has been evaluated in the process), and the
+      same call a second time (history: second call == first);
+    * a second adapter that registers the same topologies one by one in REVERSED order;
+    * every topology on its own (`compute_helicity_angles` / `compute_invariant_masses`) in the
+      requested order (`forward`, `reversed`, `shuffle:<seed>` of the canonical order).
+
+    Prints one JSON object. The parent compares everything with its own in-process results (other
+    evaluation order, warm caches) and with the Lean model."""
+    import json
+    import os
+    import random
+    import sys
+
+    req = json.loads(sys.stdin.read())
+    common.use_repo_source()
+    from ampform.kinematics import HelicityAdapter
+
+    parser = DescriptorParser()
+    out: dict = {"hash_seed": os.environ.get("PYTHONHASHSEED", "unset"), "n": {}}
+    for n in req["n_finals"]:
+        res: dict = {}
+        try:
+            adapter, tops, exact = all_permuted_topologies(n)
+            res["exact_order"] = exact
+            res["iteration"] = [canonical_topo(t) for t in tops]
+            first = adapter.create_expressions()
+            res["merged"] = [list(parser.symbol_def(k, v)) for k, v in first.items()]
+            second = adapter.create_expressions()
+            res["second_call_equal"] = bool(list(first.items()) == list(second.items()))
+            rev = HelicityAdapter([tops[-1]])
+            for t in reversed(tops[:-1]):
+                rev.register_topology(t)
+            private = getattr(rev, "_HelicityAdapter__topologies", None)
+            if isinstance(private, (set, frozenset)):
+                res["reversed_iteration"] = [canonical_topo(t) for t in private]
+                res["reversed_merged"] = [list(parser.symbol_def(k, v)) for k, v in rev.create_expressions().items()]
+            order = sorted(tops, key=canonical_topo)
+            mode = req.get("order", "forward")
+            if mode == "reversed":
+                order.reverse()
+            elif mode.startswith("shuffle:"):
+                random.Random(mode).shuffle(order)
+            res["per_topology"] = {canonical_topo(t): [list(x) for x in real_angles(parser, t) + real_masses(parser, t)]
+                                   for t in order}
+        except ParseAbort as e:
+            res["parse_abort"] = str(e)[:300]
+        except Exception as e:  # noqa: BLE001
+            res["error"] = f"{type(e).__name__}: {e}"[:300]
+        out["n"][str(n)] = res
+    print("C07WORKER " + json.dumps(out))
+
+
+def run_worker(n_finals, order: str, hash_seed: str | None, timeout: int = 600) -> dict:
+    import json
+    import os
+    import subprocess
+
+    env = dict(os.environ)
+    env["PYTHONPATH"] = str(common.ROOT) + os.pathsep + env.get("PYTHONPATH", "")
+    if hash_seed is None:
+        env.pop("PYTHONHASHSEED", None)
+    else:
+        env["PYTHONHASHSEED"] = hash_seed
+    try:
+        p = subprocess.run([common.PY, "-m", "tools.corr.C07"], cwd=common.ROOT, env=env, text=True,
+                           input=json.dumps({"n_finals": list(n_finals), "order": order}),
+                           capture_output=True, timeout=timeout)
+    except subprocess.TimeoutExpired as e:
+        raise common.InfraError(f"C07 worker timed out after {timeout}s") from e
+    for line in p.stdout.split("\n"):
+        if line.startswith("C07WORKER "):
+            return json.loads(line[len("C07WORKER "):])
+    return {"error": (p.stdout + p.stderr)[-600:], "n": {}}
+
+
+if __name__ == "__main__":
+    worker_main()
